@@ -714,31 +714,25 @@ func c21ConsistentHash(e *c21Env, rng *rand.Rand, cases int) {
 			_ = Tell(context.Background(), pid, &c21Poison{mode: mode})
 			removed = victim
 		}
-		// membership change is complete when exactly one of the original routees is no
-		// longer running and (for the router-driven paths) the router reports n-1
+		// The membership change is complete, structurally, when exactly one of the
+		// original routees has left the actor tree (not merely stopped running: a
+		// panicking routee is suspended before the router handles its PanicSignal) and
+		// the router has afterwards answered a request: for the router-driven paths the
+		// stop happens inside the router's own handler, so the answer comes after the
+		// ring was rebuilt.
 		var after []string
 		gone := verifrt.WaitUntil(60*time.Second, func() bool {
 			down := 0
 			for _, n := range names {
-				pid, ok := e.sys.findRoutee(n)
-				if !ok || !pid.IsRunning() {
+				if _, ok := e.sys.findRoutee(n); !ok {
 					down++
-					if removed == "" || removed == n {
-						removed = n
-					}
+					removed = n
 				}
 			}
 			return down == 1
 		})
-		if gone && removal != "routee-self-shutdown" {
-			gone = verifrt.WaitUntil(60*time.Second, func() bool {
-				got, ok := e.routeeNames(router)
-				if ok && len(got) == size-1 {
-					after = got
-					return true
-				}
-				return false
-			})
+		if gone {
+			_, gone = e.routeeNames(router)
 		}
 		if !gone {
 			e.stop(router)
@@ -746,11 +740,9 @@ func c21ConsistentHash(e *c21Env, rng *rand.Rand, cases int) {
 			r.Case(key, false)
 			continue
 		}
-		if after == nil {
-			for _, n := range names {
-				if n != removed {
-					after = append(after, n)
-				}
+		for _, n := range names {
+			if n != removed {
+				after = append(after, n)
 			}
 		}
 		ownedByRemoved := 0
